@@ -33,6 +33,8 @@ func main() {
 		code = core.WorkerMain(os.Args[2:])
 	case "replay":
 		code = core.ReplayMain(os.Args[2])
+	case "selftest":
+		code = core.SelfTestMain(os.Args[2:])
 	case "c40run":
 		code = concprops.ChildMain(os.Args[2])
 	case "killrun":
